@@ -105,6 +105,14 @@ func Run(args []string) *rep.Report {
 			return fmt.Errorf("line %d: %w", idx, err)
 		}
 		d := replayOne(*cfg, &b)
+		if d.Div == "hang" || d.Div == "blocked-read" || d.Div == "auto-refresh-missing" {
+			// confirm before alarm: a call that really waits for ever does so again, with a longer watchdog
+			c2 := *cfg
+			c2.Watchdog = 4 * cfg.Watchdog
+			if d2 := replayOne(c2, &b); d2.Div != d.Div {
+				d.Inconclusive, d.Div = "a "+d.Div+" did not reproduce with a longer watchdog (busy machine)", ""
+			}
+		}
 		nontrivial := false
 		for _, s := range b.Steps {
 			if s.A == "RefreshPublish" || s.A == "MissPublish" {
